@@ -3,10 +3,13 @@
    parameters are constants.  On every interval [a, b] and on the whole line (improper integral), the expectation of the bound
    integrand under N(mu, s^2) is at most the expectation of the true log-density; non-vacuity: for a concrete one-unit model the
    integrability hypotheses hold on every interval (the ReLU bound integrand is only piecewise continuous).  Proofs: trunc/MonoR.v.
-   NOT proved: the multivariate case (no multivariate integration library) and the existence of the improper integrals. *)
+   Input of ANY dimension D (trunc/MonoND.v): the same inequality for the iterated improper Riemann integral `is_gint` over R^D
+   (trunc/GaussND.v, where the multivariate Gaussian integral formula is proved for it) against any non-negative weight, in
+   particular an unnormalised Gaussian density exp (quadR D L nu x + c).
+   NOT proved: the existence of the improper integrals of the bound integrands (hypotheses of the whole-line / R^D versions). *)
 From Coq Require Import Reals Lra Lia List.
 From Coquelicot Require Import Coquelicot.
-From GT Require Import TruncGen C20_proofs HetBoundR HetGapR C17R MonoR.
+From GT Require Import TruncGen C20_proofs GaussInt GaussND HetBoundR HetGapR C17R MonoR MonoND.
 Open Scope R_scope.
 
 Theorem C17_exp_bound_expectation_1d (q0 : R -> R) ld0 c (us : list unitf) mu s lf lg : 0 < s ->
@@ -83,3 +86,31 @@ Theorem C17_relu_bound_expectation_example ld0 c ws wd mu s a b : 0 < s -> a <= 
   <= RInt (fun x => logp link_relu (ex_q0 x) ld0 c (map (at_x x) (ex_units ws wd)) * dens mu s x) a b.
 Proof. exact (mono_relu_bound_expectation_example ld0 c ws wd mu s a b). Qed.
 Print Assumptions C17_relu_bound_expectation_example.
+
+(* ---- any input dimension: iterated improper Riemann integrals over R^D ---- *)
+Theorem C17_exp_bound_expectation_nd D (q0 : vecR -> R) ld0 c (us : list unitv) (p : vecR -> R) lf lg :
+  (forall x, 0 <= p x) -> List.Forall (fun u => 0 < vws u /\ 0 < vwd u) us ->
+  is_gint D (fun x => logp_lb sLB_exp ldUB_exp (q0 x) ld0 c (map (at_v x) us) * p x) lf ->
+  is_gint D (fun x => logp link_exp (q0 x) ld0 c (map (at_v x) us) * p x) lg -> lf <= lg.
+Proof. exact (mono_exp_bound_expectation_nd D q0 ld0 c us p lf lg). Qed.
+Print Assumptions C17_exp_bound_expectation_nd.
+
+Theorem C17_coshm1_bound_expectation_nd D (q0 : vecR -> R) ld0 c (us : list unitv) (p : vecR -> R) lf lg :
+  (forall x, 0 <= p x) -> List.Forall (fun u => 0 < vws u /\ 0 < vwd u) us ->
+  is_gint D (fun x => logp_lb sLB_cosh ldUB_cosh (q0 x) ld0 c (map (at_v x) us) * p x) lf ->
+  is_gint D (fun x => logp link_coshm1 (q0 x) ld0 c (map (at_v x) us) * p x) lg -> lf <= lg.
+Proof. exact (mono_coshm1_bound_expectation_nd D q0 ld0 c us p lf lg). Qed.
+Print Assumptions C17_coshm1_bound_expectation_nd.
+
+Theorem C17_relu_bound_expectation_nd D (q0 : vecR -> R) ld0 c (us : list unitv) (p : vecR -> R) lf lg :
+  (forall x, 0 <= p x) -> List.Forall (fun u => 0 <= vws u /\ 0 <= vwd u) us ->
+  is_gint D (fun x => logp_lb sLB_relu ldUB_relu (q0 x) ld0 c (map (at_v x) us) * p x) lf ->
+  is_gint D (fun x => logp link_relu (q0 x) ld0 c (map (at_v x) us) * p x) lg -> lf <= lg.
+Proof. exact (mono_relu_bound_expectation_nd D q0 ld0 c us p lf lg). Qed.
+Print Assumptions C17_relu_bound_expectation_nd.
+
+(* the Gaussian weight: non-negative, and its own integral over R^D exists with the closed form (gauss_nd) *)
+Theorem C17_gaussian_weight D L nu c : symR D L -> gpivR D L ->
+  (forall x, 0 <= exp (quadR D L nu x + c)) /\ is_gint D (fun x => exp (quadR D L nu x + c)) (exp (gvalR D L nu + c)).
+Proof. exact (fun Hs Hp => conj (gauss_weight_nonneg D L nu c) (gauss_nd D L nu c Hs Hp)). Qed.
+Print Assumptions C17_gaussian_weight.
